@@ -508,7 +508,21 @@ def _to_text(f):
 # --------------------------------------------------------------------------------------
 
 def probes(ctx):
-    return []
+    nan = float('nan')
+    S = F.FrameSpec
+    return [
+        {'spec': S([0, 1, 2], ['a', 'b'], 'auto', 'str', ['int64', 'int64'], [[1, 2], [3, 4], [5, 6]]), 'layout_seed': 1,
+         'ops': [('bloc', {'mask': [[True, True], [False, True], [True, False]]})]},
+        {'spec': S([0, 1], ['a', 'b'], 'auto', 'str', ['float64', 'float64'], [[nan, 1.0], [2.0, 3.0]]), 'layout_seed': 1, 'ops': [('fillna', {'v': 'x'})]},
+        {'spec': S([0, 1], ['a', 'b'], 'auto', 'str', ['uint8', 'uint8'], [[250, 3], [250, 3]]), 'layout_seed': 1,
+         'ops': [('reduce', {'fn': 'sum', 'axis': 0, 'skipna': True})]},
+        {'spec': S([-19, -11], [54, 22], 'negint', 'int', ['int8', 'int8'], [[-7, 5], [-7, 1]]), 'layout_seed': 1,
+         'ops': [('reindex', {'rows': [999], 'cols': [54, 22], 'fill': 0})]},
+        {'spec': S(['k3'], [11, 28, 13, 52], 'str', 'int', ['bool', 'bool', 'float32', 'bool'], [[True, True, 1024.0, True]]), 'layout_seed': 1,
+         'ops': [('assign_scalar', {'r': ('array', []), 'c': ('array', [-3, 0, 3]), 'v': 250})]},
+        {'spec': S([-2, -25], [0], 'negint', 'auto', ['float32'], [[nan], [3.0]]), 'layout_seed': 1, 'ops': [('dropna', {'axis': 1, 'cond': 'all'})]},
+        {'spec': S([0, 1], ['z', 'w'], 'auto', 'str', ['object', 'object'], [[2.5, nan], [None, b'x']]), 'layout_seed': 1, 'ops': [('astype_all', {'dt': 'int64'})]},
+    ]
 
 
 def generate(ctx):
